@@ -122,8 +122,9 @@ def check_clauses(ctx, rng, n, vi, led, conn, entries, options, txns, d, e, use_
         return False
     lo = open_ or datetime.date.min
     hi = close if isinstance(close, datetime.date) else datetime.date.max
-    inside = [t for t in txns if lo <= t.date < hi]
-    cut = len(txns) - len(inside)
+    # (a transaction the loader left without postings -- a booking error such as an ambiguous lot match -- has no row in the postings table)
+    inside = [t for t in txns if lo <= t.date < hi and t.postings]
+    cut = len([t for t in txns if t.postings]) - len(inside)
     ctx.case((ledgers_digest(led), clauses), cut > 0 and len(inside) > 0)
     ctx.count('obs.cases')
     ctx.seen('clause_subsets', f"{'O' if use_open else '-'}{'C' if close_kind == 'date' else 'c' if close_kind == 'bare' else '-'}{'X' if clear else '-'}")
@@ -268,7 +269,7 @@ def check_clauses(ctx, rng, n, vi, led, conn, entries, options, txns, d, e, use_
         return False
     from beancount.parser import parser as bparser
     pentries, perrs, _ = bparser.parse_string(out.getvalue())
-    ptx = [(t.date, t.narration, tuple(p.account for p in t.postings)) for t in pentries if isinstance(t, data.Transaction)]
+    ptx = [(t.date, t.narration, tuple(p.account for p in t.postings)) for t in pentries if isinstance(t, data.Transaction) and t.postings]
     stx = [(t.date, t.narration, tuple(p.account for p in t.postings)) for t in seen_entries]
     ctx.count('obs.print_route')
     if ptx != stx:
